@@ -287,21 +287,44 @@ func (o *FileObs) Call(svc, meth int, cliOps, srvOps []string, f func() (string,
 		if r.pan != "" {
 			co.Err = "panic:" + r.pan
 		}
-	case <-time.After(20 * time.Second):
+	case <-time.After(10 * time.Second):
+		// slow or stuck?  It is stuck when no goroutine of the process can run any more (there is no
+		// real I/O and no timer besides ours): only then the parked goroutines are reported.
 		co.TimedOut = true
-		co.Parked = parked()
-		o.dead = true
+		for i := 0; i < 6; i++ {
+			p, busy := census()
+			if busy == 0 {
+				co.Parked = p
+				break
+			}
+			select {
+			case r := <-ch:
+				co.TimedOut = false
+				co.Reply, co.Err = r.reply, ErrStr(r.err)
+				if r.pan != "" {
+					co.Err = "panic:" + r.pan
+				}
+			case <-time.After(2 * time.Second):
+			}
+			if !co.TimedOut {
+				break
+			}
+		}
+		if co.TimedOut {
+			o.dead = true
+		}
 	}
 	co.Wire, co.Ran = o.Rec.since(w, n)
 	o.Calls = append(o.Calls, co)
 }
 
-// parked lists, per waiting goroutine that is inside the drpc library, its state and innermost drpc frame.
-func parked() []string {
-	buf := make([]byte, 4<<20)
+// census lists, per waiting goroutine that is inside the drpc library, its state and innermost drpc
+// frame, and counts the goroutines (other than the caller) that are not waiting.
+func census() (parked []string, busy int) {
+	buf := make([]byte, 8<<20)
 	buf = buf[:runtime.Stack(buf, true)]
-	out := []string{}
-	for _, g := range strings.Split(string(buf), "\n\n") {
+	parked = []string{}
+	for gi, g := range strings.Split(string(buf), "\n\n") {
 		lines := strings.Split(g, "\n")
 		if len(lines) < 2 || !strings.HasPrefix(lines[0], "goroutine ") {
 			continue
@@ -310,21 +333,27 @@ func parked() []string {
 		if i := strings.Index(state, "["); i >= 0 {
 			state = strings.TrimSuffix(state[i:], ":")
 		}
-		if strings.Contains(state, "running") || strings.Contains(state, "runnable") {
+		if strings.Contains(state, "running") || strings.Contains(state, "runnable") || strings.Contains(state, "syscall") {
+			if gi > 0 { // the first goroutine of the dump is the caller
+				busy++
+			}
 			continue
+		}
+		if i := strings.Index(state, ","); i > 0 {
+			state = state[:i] + "]" // drop the waiting time
 		}
 		for _, l := range lines[1:] {
 			if strings.HasPrefix(l, "storj.io/drpc/") {
 				if i := strings.LastIndex(l, "("); i > 0 {
 					l = l[:i]
 				}
-				out = append(out, state+" "+l)
+				parked = append(parked, state+" "+l)
 				break
 			}
 		}
 	}
-	sort.Strings(out)
-	return out
+	sort.Strings(parked)
+	return parked, busy
 }
 `
 
